@@ -34,6 +34,9 @@ func init() {
 }
 
 func runC04(c *an.Ctx) {
+	// ---- R11: the TTL-override switch and the cache sizes of the configuration reach the caches
+	c.Floor("C04-R11", 3)
+	c.Borrow("C04-R11", runC20, func(o an.Obligation) bool { return o.Rule == "C20-R5" && strings.Contains(o.Key, "cacheConfig") })
 	// ---- R10: a record taken from the cloner's pools is fully re-initialised (a cached clone never inherits another message's fields)
 	c.Floor("C04-R10", 10)
 	c04ClonerPools(c, "C04-R10")
